@@ -7,7 +7,8 @@
    arbitrary constants - hence also for the concrete instance of Model/ReqEmbedInst.v, for which the
    second group gives the fuel bound. *)
 From PV Require Import Base.Prelude Spec.LuaLex Instances.HoldsC01 Generated.T_files_build Model.ReqEmbed
-  Model.ReqEmbedInst Proofs.ReqEmbedProofs Proofs.ReqEmbedInstProofs Proofs.SpecLexChunk Proofs.ReqEmbedSpecTokens.
+  Model.ReqEmbedInst Proofs.ReqEmbedProofs Proofs.ReqEmbedInstProofs Proofs.SpecLexChunk Proofs.ReqEmbedSpecTokens
+  Instances.HoldsC06.
 
 Section Abstract.
 Variable P : Type.
@@ -270,6 +271,35 @@ Theorem C14_tokens_spec_partial :
                           end).
 Proof. exact build_code_tokens_spec. Qed.
 
+(* C06's predicate is enough: if holds_C06 (source, echoed text) and the echoed text has no lone
+   carriage return, the echoed text is in the dialect whenever the source is, with the same
+   significant token views (Proofs/SpecLexChunk.v: step_ctx - a token is read the same way in front
+   of any text that starts with the same byte - and walk_chain) *)
+Theorem C14_echo_predicate_suffices : forall src out t,
+  holds_C06 src out = true -> crlf_only out = true -> sig_views src = Some t -> sig_views out = Some t.
+Proof. exact holds_C06_sig_views. Qed.
+
+(* so the token-level clause, with its remaining hypothesis in the form C06 proves of the lexer model *)
+Theorem C14_tokens_spec_partial_c06 :
+  (forall ls q, from_lines ls = Ok q -> holds_C06 (concat ls) (concat (echo_lines q)) = true) ->
+  (forall ls q t, from_lines ls = Ok q -> sig_views (concat ls) = Some t ->
+                  crlf_only (concat (echo_lines q)) = true) ->
+  forall cwd fs lua_path fuel main_path main_content out,
+  build_code_now cwd fs lua_path fuel main_path main_content = Ok out ->
+  exists r pk, build_lua_now cwd fs lua_path fuel main_path main_content = Ok (r, pk) /\
+    let toks := toks (Z * list Z * Z * Z * Z) sig_views in
+    let lexes := lexes (Z * list Z * Z * Z * Z) sig_views in
+    (Forall (fun e => lexes (header_line_now (fst e)) /\ lexes (concat (echo_lines (snd e)))) pk ->
+     lexes main_content ->
+     sig_views out = Some match pk with
+                          | [] => toks main_content
+                          | _ => concat (map toks require_lua_preamble_package)
+                                 ++ concat (map (fun e => toks (header_line_now (fst e))
+                                                          ++ toks (concat (echo_lines (snd e))) ++ toks end_line_now) pk)
+                                 ++ concat (map toks require_lua_preamble_require) ++ toks main_content
+                          end).
+Proof. exact build_code_tokens_spec_c06. Qed.
+
 (* the stripping step of the concrete model, before the text is lexed again: whatever statements of
    the tree are taken for game loop functions and wherever their token ranges lie, the significant
    tokens that remain are a subsequence of the file's significant tokens - stripping removes, it never
@@ -296,6 +326,8 @@ Print Assumptions C14_strip_only_removes.
 Print Assumptions C14_reference_chunking.
 Print Assumptions C14_reference_final_lf.
 Print Assumptions C14_tokens_spec_partial.
+Print Assumptions C14_echo_predicate_suffices.
+Print Assumptions C14_tokens_spec_partial_c06.
 
 (* non-vacuity: a main program and two packages that require each other (a cycle), one game loop
    function each, one package without a final newline; the build succeeds, embeds each package once
